@@ -1,25 +1,78 @@
-import json, os, subprocess, shutil, sys
-ROOT='/verif'
-SCR='/tmp/verif_seedgen'
-muts=json.load(open(ROOT+'/selftest/mutations.json'))
-muts=[m for m in muts if not m['name'].startswith('seed ')]
-for d in sorted(os.listdir(ROOT+'/seeded')):
-    pid=d.split('-')[0]
-    if os.path.exists(SCR): shutil.rmtree(SCR)
-    os.makedirs(SCR)
-    subprocess.check_call(["rsync","-a","--exclude","target","--exclude",".git","--exclude","web","--exclude","*.snap","/repo/",SCR+"/"])
-    pr=subprocess.run(["patch","-p1","-s","-i",f"{ROOT}/seeded/{d}/patch.diff"],cwd=SCR,capture_output=True,text=True)
-    if pr.returncode!=0:
-        print(d,"PATCH FAILS",pr.stdout[-200:]); continue
-    env=dict(os.environ,VERIF_REPO=SCR,VERIF_EVIDENCE_DIR=SCR+"/_ev",VERIF_NO_REPLAY="1")
-    r=subprocess.run([ROOT+"/check",pid],env=env,capture_output=True,text=True)
-    failed=sorted({l.split()[2].rstrip(":") for l in r.stdout.split("\n") if l.strip().startswith("failed obligation ")})
-    print(d,r.returncode,failed, [l for l in r.stdout.split("\n") if "UNDECIDED" in l][:2])
-    meta=json.load(open(f"{ROOT}/seeded/{d}/meta.json"))
-    meta["detected_by"]=failed if r.returncode==1 else []
-    meta["check_exit"]=r.returncode
-    json.dump(meta,open(f"{ROOT}/seeded/{d}/meta.json","w"),indent=1)
-    if r.returncode==1:
-        muts.append({"name":"seed "+d,"property":pid,"patch":f"seeded/{d}/patch.diff","expect":failed[:3]})
-shutil.rmtree(SCR,ignore_errors=True)
-json.dump(muts,open(ROOT+'/selftest/mutations.json','w'),indent=1)
+"""Regenerates the `seed ..` entries of selftest/mutations.json and detected_by / check_exit in every seeded/<id>/meta.json: each seeded change is applied to a scratch
+copy of /repo's sources (never /repo) and its property's quick check is run against that copy.  Workers run in parallel, each with a scratch directory of its own
+(build and evidence directories follow VERIF_EVIDENCE_DIR); mutations.json is written once, at the end.  Nothing else may edit /repo, the units, the registry or
+mutations.json while this runs."""
+import json
+import os
+import queue
+import shutil
+import subprocess
+import threading
+
+ROOT = '/verif'
+SCR0 = '/tmp/verif_seedgen'
+WORKERS = int(os.environ.get("VERIF_SEED_WORKERS", "5"))
+
+
+def run_one(d, slot):
+    pid = d.split('-')[0]
+    scr = "%s_%d" % (SCR0, slot)
+    if os.path.exists(scr):
+        shutil.rmtree(scr)
+    os.makedirs(scr)
+    try:
+        subprocess.check_call(["rsync", "-a", "--exclude", "target", "--exclude", ".git", "--exclude", "web", "--exclude", "*.snap", "/repo/", scr + "/"])
+        pr = subprocess.run(["patch", "-p1", "-s", "-i", f"{ROOT}/seeded/{d}/patch.diff"], cwd=scr, capture_output=True, text=True)
+        if pr.returncode != 0:
+            return d, None, [], "PATCH FAILS " + pr.stdout[-200:]
+        env = dict(os.environ, VERIF_REPO=scr, VERIF_EVIDENCE_DIR=scr + "/_ev", VERIF_NO_REPLAY="1")
+        r = subprocess.run([ROOT + "/check", pid], env=env, capture_output=True, text=True)
+        failed = sorted({l.split()[2].rstrip(":") for l in r.stdout.split("\n") if l.strip().startswith("failed obligation ")})
+        und = [l for l in r.stdout.split("\n") if "UNDECIDED" in l][:2]
+        return d, r.returncode, failed, " ".join(und)[:300]
+    finally:
+        shutil.rmtree(scr, ignore_errors=True)
+
+
+def main():
+    muts = json.load(open(ROOT + '/selftest/mutations.json'))
+    muts = [m for m in muts if not m['name'].startswith('seed ')]
+    seeds = sorted(os.listdir(ROOT + '/seeded'))
+    results = {}
+    q = queue.Queue()
+    for d in seeds:
+        q.put(d)
+
+    def worker(slot):
+        while True:
+            try:
+                d = q.get_nowait()
+            except queue.Empty:
+                return
+            try:
+                res = run_one(d, slot)
+            except Exception as e:
+                res = (d, None, [], "ERROR %r" % e)
+            results[d] = res
+            print(res[0], res[1], res[2], res[3], flush=True)
+    ts = [threading.Thread(target=worker, args=(i,)) for i in range(WORKERS)]
+    for t in ts:
+        t.start()
+    for t in ts:
+        t.join()
+    for d in seeds:
+        _, rc, failed, note = results[d]
+        if rc is None:
+            continue
+        pid = d.split('-')[0]
+        meta = json.load(open(f"{ROOT}/seeded/{d}/meta.json"))
+        meta["detected_by"] = failed if rc == 1 else []
+        meta["check_exit"] = rc
+        json.dump(meta, open(f"{ROOT}/seeded/{d}/meta.json", "w"), indent=1)
+        if rc == 1:
+            muts.append({"name": "seed " + d, "property": pid, "patch": f"seeded/{d}/patch.diff", "expect": failed[:3]})
+    json.dump(muts, open(ROOT + '/selftest/mutations.json', 'w'), indent=1)
+
+
+if __name__ == "__main__":
+    main()
